@@ -141,6 +141,42 @@ func setStr(s *specs.Spec, slot, v string) {
 	}
 }
 
+// tailSpec: a small Spec in which the slot's string is the last scalar of the document (a
+// reader that trims the file, or a writer that forgets the final newline, shows only there).
+func tailSpec(slot, v string) *specs.Spec {
+	s := &specs.Spec{Version: "1.0.0", Kind: "v1.com/cls", Devices: []specs.Device{{Name: "dev1", ContainerEdits: specs.ContainerEdits{Env: []string{"D=1"}}}}}
+	e := &s.ContainerEdits
+	switch slot {
+	case "envval":
+		e.Env = []string{"A=" + v}
+	case "hookpath":
+		e.Hooks = []*specs.Hook{{HookName: "prestart", Path: v}}
+	case "hookarg":
+		e.Hooks = []*specs.Hook{{HookName: "prestart", Path: "/bin/h", Args: []string{"h", v}}}
+	case "hookenv":
+		e.Hooks = []*specs.Hook{{HookName: "prestart", Path: "/bin/h", Env: []string{"H=" + v}}}
+	case "mountcont":
+		e.Mounts = []*specs.Mount{{HostPath: "/h", ContainerPath: v}}
+	case "mountopt":
+		e.Mounts = []*specs.Mount{{HostPath: "/h", ContainerPath: "/c", Options: []string{"ro", v}}}
+	case "mounttype":
+		e.Mounts = []*specs.Mount{{HostPath: "/h", ContainerPath: "/c", Type: v}}
+	case "nodepath":
+		e.DeviceNodes = []*specs.DeviceNode{{Path: v}}
+	case "nodehost":
+		e.DeviceNodes = []*specs.DeviceNode{{Path: "/dev/a", HostPath: v}}
+	case "rdtclos":
+		e.IntelRdt = &specs.IntelRdt{ClosID: v}
+	case "rdtl3":
+		e.IntelRdt = &specs.IntelRdt{L3CacheSchema: v}
+	case "rdtmb":
+		e.IntelRdt = &specs.IntelRdt{MemBwSchema: v}
+	default:
+		return nil
+	}
+	return s
+}
+
 func setInt(s *specs.Spec, slot, v string) {
 	vals := map[string]int64{"zero": 0, "one": 1, "neg1": -1, "max32": math.MaxUint32, "max32p1": math.MaxUint32 + 1,
 		"maxint64": math.MaxInt64, "minint64": math.MinInt64, "maxuint32m1": math.MaxUint32 - 1}
@@ -216,6 +252,7 @@ func roundtripRow(idx int, line []byte, seed int64, col *collector) {
 	}
 	r := rand.New(rand.NewSource(seed*1000003 + int64(idx)))
 	raw := baseSpecRT()
+	var tail *specs.Spec
 	desc := []string{}
 	for i, slot := range row.Slots {
 		if row.Kind == "int" {
@@ -228,6 +265,9 @@ func roundtripRow(idx int, line []byte, seed int64, col *collector) {
 			_ = json.Unmarshal(row.Vals[i], &id)
 			s := poolString(id, r)
 			setStr(raw, slot, s)
+			if len(row.Slots) == 1 {
+				tail = tailSpec(slot, s)
+			}
 			desc = append(desc, fmt.Sprintf("%s=%q", slot, s))
 		}
 	}
@@ -246,57 +286,68 @@ func roundtripRow(idx int, line []byte, seed int64, col *collector) {
 		name += "." + row.Enc
 	}
 	accepted := false
-	pan, stack, hung := guarded(60*time.Second, func() {
-		want := canon(raw)
-		c, _ := cdi.NewCache(cdi.WithSpecDirs(dir), cdi.WithAutoRefresh(false))
-		if err := c.WriteSpec(raw, name); err != nil {
-			col.count("rejected_for_writing", 1)
-			return // not "accepted for writing": nothing is promised
-		}
-		accepted = true
-		if canon(raw) != want {
-			report(Mismatch{What: "writing-changed-the-spec-value", Want: want, Got: canon(raw)})
-		}
-		path := filepath.Join(dir, name)
-		if row.Enc == "none" {
-			path += ".yaml"
-		}
-		sp, err := cdi.ReadSpec(path, 0)
-		if err != nil {
-			data, _ := os.ReadFile(path)
-			report(Mismatch{What: "written-file-cannot-be-read-back", Want: "success", Got: err.Error(), Note: what + "\nfile: " + firstBytes(data, 600)})
-			return
-		}
-		if got := canon(sp.Spec); got != want {
-			report(Mismatch{What: "read-back-spec-differs", Want: want, Got: got})
-		}
-		if err := c.Refresh(); err != nil {
-			report(Mismatch{What: "written-file-does-not-load", Got: err.Error()})
-		}
-		for i := range raw.Devices {
-			d := c.GetDevice("v1.com/cls=" + raw.Devices[i].Name)
-			if d == nil {
-				report(Mismatch{What: "device-missing-after-load", Want: raw.Devices[i].Name})
-				continue
-			}
-			wb, _ := json.Marshal(raw.Devices[i])
-			var wv interface{}
-			_ = json.Unmarshal(wb, &wv)
-			gb, _ := json.Marshal(d.Device)
-			var gv interface{}
-			_ = json.Unmarshal(gb, &gv)
-			if jsonOf(dropEmpty(wv)) != jsonOf(dropEmpty(gv)) {
-				report(Mismatch{What: "loaded-device-differs", Want: string(wb), Got: string(gb)})
-			}
-		}
-	})
-	if pan != nil {
-		report(Mismatch{Props: []string{"C08", "C09"}, What: "panic", Got: fmt.Sprint(pan), Note: what + "\n" + stack})
+	variants := []*specs.Spec{raw}
+	if tail != nil {
+		variants = append(variants, tail)
 	}
-	if hung {
-		report(Mismatch{Props: []string{"C08", "C09"}, What: "hang", Note: what})
+	for vi, raw := range variants {
+		raw := raw
+		dir := filepath.Join(dir, fmt.Sprintf("v%d", vi))
+		if vi == 1 {
+			what = strings.Join(desc, " ") + " (last scalar of the document) as " + row.Enc
+		}
+		pan, stack, hung := guarded(60*time.Second, func() {
+			want := canon(raw)
+			c, _ := cdi.NewCache(cdi.WithSpecDirs(dir), cdi.WithAutoRefresh(false))
+			if err := c.WriteSpec(raw, name); err != nil {
+				col.count("rejected_for_writing", 1)
+				return // not "accepted for writing": nothing is promised
+			}
+			accepted = true
+			if canon(raw) != want {
+				report(Mismatch{What: "writing-changed-the-spec-value", Want: want, Got: canon(raw)})
+			}
+			path := filepath.Join(dir, name)
+			if row.Enc == "none" {
+				path += ".yaml"
+			}
+			sp, err := cdi.ReadSpec(path, 0)
+			if err != nil {
+				data, _ := os.ReadFile(path)
+				report(Mismatch{What: "written-file-cannot-be-read-back", Want: "success", Got: err.Error(), Note: what + "\nfile: " + firstBytes(data, 600)})
+				return
+			}
+			if got := canon(sp.Spec); got != want {
+				report(Mismatch{What: "read-back-spec-differs", Want: want, Got: got})
+			}
+			if err := c.Refresh(); err != nil {
+				report(Mismatch{What: "written-file-does-not-load", Got: err.Error()})
+			}
+			for i := range raw.Devices {
+				d := c.GetDevice("v1.com/cls=" + raw.Devices[i].Name)
+				if d == nil {
+					report(Mismatch{What: "device-missing-after-load", Want: raw.Devices[i].Name})
+					continue
+				}
+				wb, _ := json.Marshal(raw.Devices[i])
+				var wv interface{}
+				_ = json.Unmarshal(wb, &wv)
+				gb, _ := json.Marshal(d.Device)
+				var gv interface{}
+				_ = json.Unmarshal(gb, &gv)
+				if jsonOf(dropEmpty(wv)) != jsonOf(dropEmpty(gv)) {
+					report(Mismatch{What: "loaded-device-differs", Want: string(wb), Got: string(gb)})
+				}
+			}
+		})
+		if pan != nil {
+			report(Mismatch{Props: []string{"C08", "C09"}, What: "panic", Got: fmt.Sprint(pan), Note: what + "\n" + stack})
+		}
+		if hung {
+			report(Mismatch{Props: []string{"C08", "C09"}, What: "hang", Note: what})
+		}
 	}
-	col.done(line, accepted, 4)
+	col.done(line, accepted, 4*len(variants))
 }
 
 func roundtripMain(args []string) int {
